@@ -12,6 +12,9 @@ claimed = {
  "C08": ("special-value table for every operation", "§5 C08"),
  "C09": ("Quantize / RoundToIntegral / Ceil / Floor against an integer-rounding characterisation", "§5 C09"),
  "C10": ("QuoInteger/Rem division identity over the upscaled integers", "§5 C10"),
+ "C04": ("run-time panic obligations on every executed instruction, parser well-formedness on all short byte strings, bounded-termination (hang) check of the iterative functions under every trap set", "§5 C04"),
+ "C13": ("format -> parse round trip on symbolic decimals for every text form; Compose(Decompose)", "§5 C13"),
+ "C14": ("String against an independent to-scientific-string formatter; parser acceptance against the unrolled grammar for ALL ASCII strings up to 7 bytes; Format flags", "§5 C14"),
  "C15": ("Cmp against cross-scaled integers, CmpTotal against a totally ordered key", "§5 C15"),
  "C17": ("Int64, Modf and the integer constructors are exact", "§5 C17"),
  "C18": ("no encoded operation writes shared memory (write-set monitor), hence no race under any interleaving", "§5 C18"),
@@ -22,7 +25,7 @@ not_applicable = {
  "C11": "Newton cores of Sqrt/Cbrt: chains of dependent symbolic/symbolic decimal divisions at >= 12 working digits are undecided by z3/cvc5 in NIA and QF_BV at the smallest configuration the code admits; no honest bound exists (DESIGN.md §5 C11)",
  "C12": "Exp/Ln/Log10/Pow depend on float64 detours (strconv.ParseFloat, math.Log), up to 1000 Taylor terms and an oracle (1 ulp of a transcendental) that no available SMT theory expresses (DESIGN.md §5 C12)",
 }
-pending = ["C04","C13","C14","C16"]
+pending = ["C16"]
 
 checks=[]
 for pid,(text,ref) in sorted(claimed.items()):
